@@ -6,6 +6,7 @@
          while the pinned join-only parent deadlocks as soon as the result exceeds the pipe.
    The agreement of the kinds with a direct call and with each other, for values, exceptions,
    sizes and not-run workers, is the differential harness (harness/props/c02.py). *)
+From PW Require Equiv.Transport Equiv.TransportProofs Gen.Transport.
 From PW Require Import Equiv.Strings Gen.Create Equiv.Pipe.
 Open Scope string_scope.
 
@@ -33,9 +34,31 @@ Theorem C02_refuted_for_join_only_parent :
               /\ forall sched, run cap false s sched = s.
 Proof. exact join_only_deadlocks. Qed.
 
+(* (v) the final message of a process worker reaches the accessors exactly as sent, whatever the parent did before:
+   any number of wait() calls (which may receive the message early), accessor calls while the child was alive, in
+   any interleaving with the child's send and exit - on the reception shape regenerated from ProcessWorker.wait and
+   ProcessWorker._get_result (Gen/Transport.v).  (False, None) iff the child exited without having sent anything. *)
+Lemma C02_reception_shape : Equiv.TransportProofs.good_tflags Gen.Transport.gen_tflags.
+Proof. repeat split; reflexivity. Qed.
+
+Theorem C02_result_is_what_the_child_sent :
+  forall (msg : Type) (es es' : list (Equiv.Transport.ev msg)),
+    (Equiv.Transport.sends _ es <= 1)%nat -> Equiv.Transport.sends _ es' = 0%nat ->
+    Equiv.Transport.result _ (Equiv.Transport.run msg Gen.Transport.gen_tflags (Equiv.Transport.run msg Gen.Transport.gen_tflags (Equiv.Transport.init msg) (es ++ [Equiv.Transport.CExit])) (Equiv.Transport.PGet :: es'))
+    = Some (match Equiv.Transport.sent_before_exit _ es false None with Some m => Equiv.Transport.Report m | None => Equiv.Transport.NoReport end).
+Proof. intros msg. exact (Equiv.TransportProofs.transport_exact msg Gen.Transport.gen_tflags C02_reception_shape). Qed.
+
+(* the regression "keep only what the last wait() received" loses a message received by an earlier wait() *)
+Theorem C02_refuted_if_wait_overwrites :
+  exists fl, Equiv.TransportFlags.wait_keeps_early fl = false /\ Equiv.TransportFlags.wait_receives fl = true /\ Equiv.TransportFlags.result_from_early fl = true /\ Equiv.TransportFlags.result_drains fl = true /\
+    Equiv.Transport.result nat (Equiv.Transport.run nat fl (Equiv.Transport.init nat) [Equiv.Transport.CSend 7; Equiv.Transport.PWait; Equiv.Transport.CExit; Equiv.Transport.PWait; Equiv.Transport.PGet]) = Some Equiv.Transport.NoReport.
+Proof. exact Equiv.TransportProofs.lost_without_guard. Qed.
+
 Example C02_example : child_done (run 4 true (mkSt 10 0 0 false) (repeat true 3 ++ repeat false 30)) = true.
 Proof. vm_compute. reflexivity. Qed.
 
 Print Assumptions C02_create_names.
 Print Assumptions C02_wait_never_deadlocks.
 Print Assumptions C02_refuted_for_join_only_parent.
+Print Assumptions C02_result_is_what_the_child_sent.
+Print Assumptions C02_refuted_if_wait_overwrites.
